@@ -24,6 +24,7 @@ func NewAlert(parents []ast.Node) *AlertNode {
 // Build creates a Alert ast.Node
 func (n *AlertNode) Build(a *pipeline.AlertNode) (ast.Node, error) {
 	n.Pipe("alert").
+		Dot("category", a.Category).
 		Dot("topic", a.Topic).
 		Dot("id", a.Id).
 		Dot("message", a.Message).
@@ -268,7 +269,17 @@ func (n *AlertNode) Build(a *pipeline.AlertNode) (ast.Node, error) {
 	for _, h := range a.OpsGenie2Handlers {
 		n.Dot("opsGenie2").
 			Dot("teams", args(h.TeamsList)...).
-			Dot("recipients", args(h.RecipientsList)...)
+			Dot("recipients", args(h.RecipientsList)...).
+			Dot("recoveryAction", h.RecoveryActionString).
+			DotIf("details", h.IsDetails)
+	}
+
+	for _, h := range a.DiscordHandlers {
+		n.Dot("discord").
+			Dot("workspace", h.Workspace).
+			Dot("username", h.Username).
+			Dot("avatarURL", h.AvatarURL).
+			Dot("embedTitle", h.EmbedTitle)
 	}
 
 	for range a.TalkHandlers {
